@@ -192,6 +192,7 @@ def wireOf (attack : String) (params : List Nat) (other : Nat) (cap : Outcome) (
   | "mitm-ske-drop" => s2c fun x => { x with ske := none }
   | "mitm-cr-types" => s2c fun x => { x with certReq := x.certReq.map fun r => (r.1 + 64, r.2) }
   | "mitm-cr-cas" => s2c fun x => { x with certReq := x.certReq.map fun r => (r.1, 200) }
+  | "mitm-shd-body" => s2c fun x => { x with done := false }   -- a ServerHelloDone with a body is no ServerHelloDone
   | "mitm-cr-drop" => s2c fun x => { x with certReq := none }
   | "mitm-cr-insert" => s2c fun x => { x with certReq := some (x.certReq.getD (2, 0)) }
   | "mitm-ccert-swap" => c2s fun g => { g with cert := g.cert.map fun _ => [32] }
